@@ -27,12 +27,14 @@ static int LIMIT_MS = 10000;
 static std::string slurp(const std::string& p) { std::ifstream f(p); if (!f) throw std::runtime_error("driver: cannot read " + p); std::stringstream ss; ss << f.rdbuf(); return ss.str(); }
 static Aut loadFile(const std::string& p) { VATA::Parsing::TimbukParser parser; Aut a; VATA::AutBase::StateDict d; a.LoadFromString(parser, slurp(p), d); return a; }
 
-static bool inclSel(const Aut& a0, const Aut& b0, int sel) {
+// raw = the library is called on the caller's objects as they are (allowed without simulation: CheckInclusion prepares copies itself)
+static bool inclSel(const Aut& a0, const Aut& b0, int sel, bool raw = false) {
 	static const bool DOWN[8] = {0,0,1,1,1,1,1,1}, REC[8] = {0,0,0,0,1,1,1,1}, OPT[8] = {0,0,0,0,0,1,0,1}, SIM[8] = {0,1,0,1,0,0,1,1};
 	Aut smaller = a0, bigger = b0;
 	IP ip; ip.SetAlgorithm(IP::e_algorithm::antichains);
 	ip.SetDirection(DOWN[sel] ? IP::e_direction::downward : IP::e_direction::upward);
 	ip.SetUseRecursion(REC[sel]); ip.SetUseDownwardCacheImpl(OPT[sel]); ip.SetUseSimulation(SIM[sel]);
+	if (raw && !SIM[sel]) return Aut::CheckInclusion(a0, b0, ip);
 	St states = VATA::AutBase::SanitizeAutsForInclusion(smaller, bigger);
 	VATA::AutBase::StateDiscontBinaryRelation rel;
 	if (SIM[sel]) {
@@ -200,7 +202,8 @@ int main() {
 			Aut A2 = twin(FA, rng, symmap, &alpha, hA), B2 = twin(FB, rng, symmap, &alpha, hB);
 			os << " TW="; for (int s = 0; s < 8; ++s) os << timed([&]() { return inclSel(A2, B2, s); });
 			os << " E=" << (A.IsLangEmpty() ? 1 : 0) << (A2.IsLangEmpty() ? 1 : 0);
-			// laws, each with two fast selections (upward without simulation, downward recursive with cache and simulation)
+			// laws, each with two fast selections (upward without simulation, called on the objects as they are - results of library operations may share
+			// storage with their operands -, and downward recursive with cache and simulation, following the CLI protocol)
 			Aut U_ = Aut::Union(A, B), X = Aut::Intersection(A, B), R = A.Reduce(), T = A.RemoveUselessStates();
 			St nd; Aut D = dense(A, nd);
 			VATA::Serialization::TimbukSerializer ser; VATA::Parsing::TimbukParser parser;
@@ -208,7 +211,7 @@ int main() {
 			std::vector<std::pair<const Aut*, const Aut*>> laws = {
 				{&A, &U_}, {&B, &U_}, {&X, &A}, {&X, &B}, {&X, &U_}, {&A, &R}, {&R, &A}, {&A, &T}, {&T, &A}, {&A, &D}, {&D, &A}, {&A, &L}, {&L, &A} };
 			os << " LAWS=";
-			for (auto& l : laws) { os << timed([&]() { return inclSel(*l.first, *l.second, 0); }) << timed([&]() { return inclSel(*l.first, *l.second, 7); }); }
+			for (auto& l : laws) { os << timed([&]() { return inclSel(*l.first, *l.second, 0, true); }) << timed([&]() { return inclSel(*l.first, *l.second, 7); }); }
 			Aut R2 = A2.Reduce(), T2 = A2.RemoveUselessStates();
 			os << " SZ=" << flat(R).states.size() << ':' << flat(R2).states.size() << ':' << flat(T).states.size() << ':' << flat(T2).states.size();
 			St n0; Aut D0 = dense(A, n0);
